@@ -144,7 +144,8 @@ def _drive(args):
             os.unlink(realfile)
         last = events[-1]
         detail = None
-        if last.get('_exc') is not None and last['out'] == 'liberr':
+        if last.get('_exc') is not None and last['out'] == 'liberr' and not drv.THREADED:
+            # (redirecting sys.stdout is process-wide: with several harness threads the attribute of the error is judged)
             buf = io.StringIO()
             with contextlib.redirect_stdout(buf):
                 print_exception_details(last['_exc'])
@@ -182,6 +183,9 @@ def run(rep, wd, tier, seed):
             tid += 1
     parts = core.split(cases, core.NCPU)
     outs = isocheck._pool(_drive, [(seed, p) for p in parts])
+    # four threads at once, each reading its own faulty file
+    tcases = [(c[0] + 100000,) + tuple(c[1:]) for c in cases[:: max(1, len(cases) // 160)]]
+    outs = outs + isocheck.mark_threaded(isocheck.threaded('harness.c10', '_drive', [(seed, p) for p in core.split(tcases, 8)], procs=2))
     groups = {}
     for o in outs:
         for t in o:
